@@ -176,6 +176,17 @@ func (e *Enc) assertTyping(t string) {
 	e.assert(t)
 }
 
+// assertRange: integer-range typing facts. Under a quantifier they are dropped (they only ever help a proof, are rarely
+// needed there, and one copy per bound variable and leaf swamps the solvers).
+func (e *Enc) assertRange(t string) {
+	for _, q := range e.qbound {
+		if strings.Contains(t, q) {
+			return
+		}
+	}
+	e.assert(t)
+}
+
 // assume under the current reach condition of st
 func (e *Enc) assume(st *State, t string) {
 	e.assert(implies(st.reach, t))
@@ -342,7 +353,7 @@ func (e *Enc) loadLoc(st *State, l *Loc) *Val {
 		v.L = append(v.L, Sc{t, lf.Sort})
 		e.typeAssume(st, lf, t)
 		// values already in the entry heap are references that existed at entry
-		if lf.Sort == "Int" && lf.Path == "" && isRefLike(lf.T) {
+		if lf.Sort == "Int" && isRefLike(lf.T) {
 			a0 := e.declConst(sym(key+"@0"), sort)
 			// (only for containers that existed at entry: the fields of an object a callee allocates are described by
 			// the callee's ensures over the same, unhavocked, array)
@@ -351,6 +362,12 @@ func (e *Enc) loadLoc(st *State, l *Loc) *Val {
 			} else {
 				e.assertTyping("(=> (<= " + l.Ref + " alloc@0) (<= (select " + a0 + " " + l.Ref + ") alloc@0))")
 			}
+		}
+	}
+	// slice headers read from memory are well-formed: len <= cap
+	for i := 0; i+1 < len(leaves); i++ {
+		if _, ok := leaves[i].T.Underlying().(*types.Slice); ok && strings.HasSuffix(leaves[i].Path, ".len") && strings.HasSuffix(leaves[i+1].Path, ".cap") {
+			e.assertRange("(<= " + v.L[i].T + " " + v.L[i+1].T + ")")
 		}
 	}
 	return v
@@ -364,19 +381,17 @@ func (e *Enc) typeAssume(st *State, lf Leaf, t string) {
 	switch u := lf.T.Underlying().(type) {
 	case *types.Basic:
 		if lo, hi, ok := intRange(u); ok {
-			e.assertTyping("(and (<= " + smtInt(lo) + " " + t + ") (<= " + t + " " + smtInt(hi) + "))")
+			e.assertRange("(and (<= " + smtInt(lo) + " " + t + ") (<= " + t + " " + smtInt(hi) + "))")
 		}
 	case *types.Pointer, *types.Map:
-		if lf.Path == "" {
-			e.assertTyping("(<= " + t + " " + st.alloc + ")")
-		}
+		e.assertTyping("(<= " + t + " " + st.alloc + ")")
 	case *types.Slice:
 		switch {
 		case strings.HasSuffix(lf.Path, ".base"):
 			e.assertTyping("(<= " + t + " " + st.alloc + ")")
 		case strings.HasSuffix(lf.Path, ".len"), strings.HasSuffix(lf.Path, ".cap"), strings.HasSuffix(lf.Path, ".off"):
 			// lengths, capacities and offsets of slice values are non-negative ints
-			e.assertTyping("(and (<= 0 " + t + ") (<= " + t + " 9223372036854775807))")
+			e.assertRange("(and (<= 0 " + t + ") (<= " + t + " 9223372036854775807))")
 		}
 	}
 }
